@@ -135,6 +135,11 @@ func H_c14_reject() {
 		verif_assume(i+len(old) <= len(src))
 		src = src[:i] + new + src[i+len(old):]
 	}
+	// the faulty block may be the last of its kind or be followed by a faultless one
+	if nondet_bool("a-second-user-and-listener-follow") {
+		repl("  }\n}\nListeners {", "  }\n  user \"bo\" {\n    Password = \"pw\"\n  }\n}\nListeners {")
+		repl("    PortBind = 443\n  }\n}\n", "    PortBind = 443\n  }\n  Http {\n    Name = \"v\"\n    Hosts = [\"b.example\"]\n    HostBind = \"0.0.0.0\"\n    HostRotation = \"random\"\n    PortBind = 444\n  }\n}\n")
+	}
 	c := verifPlainP("name-char")
 	switch fault {
 	case 0: // no fault
